@@ -18,7 +18,9 @@ func init() {
 			shards := 4
 			for _, sc := range scen.Scenarios(tier) {
 				bound := 2
-				if tier == "thorough" && sc.Threads == 2 {
+				shards = 4
+				// bound 3 multiplies the schedule count by ~n/3: only the two smallest scenarios get it
+				if tier == "thorough" && (sc.Name == "private-2/n4up-n4up" || sc.Name == "readers-2/alpha") {
 					bound = 3
 					shards = 16
 				}
